@@ -16,7 +16,7 @@ import numpy as np  # noqa: E402
 import optree  # noqa: E402
 from scipy.sparse import csr_array  # noqa: E402
 
-FD_H = 1e-3  # central differences: exact (up to rounding) for polynomials of degree <= 2
+FD_H = 0.5  # central differences are exact for polynomials of degree <= 2 at ANY step; a dyadic step keeps integer payloads free of rounding (1e-3 put eps/h^2 ~ 1e-9 at the edge of the comparison tolerance: Appendix B)
 
 
 def to_np(a):
